@@ -14,6 +14,7 @@ cd "$HERE" || exit 2
 for c in $CHECKS; do
   out=$(PG_REPO="$SCR" PG_EVIDENCE_DIR="$EV" ./check $c ${TIER:+--tier $TIER} 2>&1); rc=$?
   echo "$c rc=$rc $(echo "$out" | grep -E '^(VIOLATION \[|UNDECIDABLE|ANCHOR|CONTROL|NO VERDICT)' | sed -E 's/ at .*//' | cut -c1-120 | sort -u | head -${NSHOW:-3} | paste -sd';')"
+  [ $rc -ge 2 ] && echo "$out" | grep -vE "^WARN" | tail -25
   [ -n "$VERBOSE" ] && [ $rc -ne 0 ] && echo "$out" | grep -vE "^WARN" | head -${VERBOSE}
 done
 WT=$(echo -n "$(readlink -f "$SCR")" | md5sum | cut -c1-8)
